@@ -332,3 +332,33 @@ def check(ctx) -> None:
     rule_rg1_rg2(ctx)
     rule_rg3(ctx)
     rule_rg4(ctx)
+    # Rg6: rows served from the cache were computed with the map removal in force now (shared with C12-K1)
+    from . import c12
+
+    c12.rule_k1(ctx, "C15-Rg6")
+    rule_rg7(ctx)
+
+
+def rule_rg7(ctx) -> None:
+    """Map removal is a setting of the Balancer that defaults to on.  No front end of the package switches it off (or
+    makes it depend on the data): `<balancer>.remove_aam = <anything but True>` outside the Balancer itself."""
+    ctx.rule("C15-Rg7", "no code of the package switches the atom-map removal off", 0)
+    n = 0
+    for q, f in sorted(ctx.prog.functions.items()):
+        if not q.startswith("synrbl.") or q.startswith("synrbl.balancing.Balancer."):
+            continue
+        for node in own_nodes(f.node):
+            if isinstance(node, (ast.Assign, ast.AugAssign, ast.AnnAssign)):
+                tg = node.targets if isinstance(node, ast.Assign) else [node.target]
+                for t in tg:
+                    if isinstance(t, ast.Attribute) and t.attr == "remove_aam":
+                        if isinstance(t.value, ast.Name) and t.value.id in ("self", "cls"):
+                            continue  # another class's own option of the same name (RxnVis)
+                        n += 1
+                        v = node.value
+                        ok = isinstance(v, ast.Constant) and v.value is True
+                        ctx.instance("C15-Rg7", "%s: %s" % (q.split("synrbl.", 1)[-1], unparse(node)[:60]), f.loc(node), ok=ok)
+                        if not ok:
+                            ctx.finding("C15-Rg7", "%s:remove_aam-assigned" % q.split("synrbl.", 1)[-1], f.loc(node), "%s sets remove_aam to %s: when that is not True the rows of the run keep their atom-map numbers" % (f.name, unparse(v)[:40] if v is not None else "?"))
+    if n == 0:
+        ctx.note("C15-Rg7: nothing outside the Balancer assigns remove_aam on this tree")
